@@ -365,3 +365,87 @@ Proof.
     match goal with |- (if ?c then _ else _) = _ -> _ => destruct c eqn:E; [|discriminate] end;
     intros H; inversion H; subst; unfold forallb, word_ok; lia.
 Qed.
+
+(* ---------------------------------------------------------------- the written table is still a table *)
+Lemma forallb_upd (p : Z -> bool) ws i new :
+  forallb p ws = true -> forallb p new = true -> forallb p (upd_words ws i new) = true.
+Proof.
+  intros H1 H2. unfold upd_words. rewrite !forallb_app.
+  assert (F : forall n l, forallb p l = true -> forallb p (firstn n l) = true).
+  { induction n as [|n IH]; intros l H; [reflexivity|]. destruct l as [|x l]; [reflexivity|].
+    cbn [forallb firstn] in *. apply andb_true_iff in H. destruct H as [Ha Hb]. rewrite Ha. cbn. apply IH. exact Hb. }
+  assert (S : forall n l, forallb p l = true -> forallb p (skipn n l) = true).
+  { induction n as [|n IH]; intros l H; [exact H|]. destruct l as [|x l]; [reflexivity|].
+    cbn [forallb skipn] in *. apply andb_true_iff in H. destruct H as [Ha Hb]. apply IH. exact Hb. }
+  rewrite F by exact H1. rewrite S by exact H1. rewrite H2. reflexivity.
+Qed.
+
+Lemma put_file_ok t f' : table_ok t = true -> dfile_ok f' = true -> table_ok (put_file t f') = true.
+Proof.
+  intros Ht Hf. induction t as [|g t IH]; [reflexivity|].
+  cbn [table_ok forallb] in Ht. apply andb_true_iff in Ht. destruct Ht as [Hg Ht].
+  cbn [put_file]. destruct (df_num g =? df_num f'); cbn [table_ok forallb].
+  - rewrite Hf. exact Ht.
+  - rewrite Hg. apply IH. exact Ht.
+Qed.
+
+Lemma words_of_list_ok' ft : forall vs ws, words_of_list ft vs = Some ws -> forallb word_ok ws = true.
+Proof.
+  induction vs as [|x vs IH]; intros ws H; cbn [words_of_list] in H.
+  - inversion H; subst. reflexivity.
+  - destruct (words_of ft x) as [a|] eqn:Ea; [|discriminate].
+    destruct (words_of_list ft vs) as [b|] eqn:Eb; [|discriminate]. inversion H; subst.
+    rewrite forallb_app. rewrite (words_of_ok _ _ _ Ea), (IH b eq_refl). reflexivity.
+Qed.
+
+Theorem ref_write_ok t a v t' :
+  table_ok t = true -> match a_bit a with Some b => 0 <= b <= 15 | None => True end ->
+  ref_write t a v = Some t' -> table_ok t' = true.
+Proof.
+  intros Ht Hb H. unfold ref_write in H.
+  destruct (file_for t a) as [f|] eqn:Ef; [|discriminate].
+  destruct (file_for_find _ _ _ Ef) as (Hfind & _ & _).
+  pose proof (find_file_ok _ _ _ Ht Hfind) as Hok.
+  assert (K : forall i new, forallb word_ok new = true -> (i + length new <= length (df_words f))%nat ->
+              dfile_ok (set_words f (upd_words (df_words f) i new)) = true).
+  { intros i new Hn Hl. unfold dfile_ok in *. cbn [set_words df_words df_ew df_ft].
+    rewrite upd_words_length by exact Hl.
+    apply andb_true_iff in Hok. destruct Hok as [Hok H4]. apply andb_true_iff in Hok. destruct Hok as [Hok H3].
+    apply andb_true_iff in Hok. destruct Hok as [H1 H2].
+    rewrite forallb_upd by assumption. rewrite H2, H3, H4. reflexivity. }
+  destruct (a_bit a) as [b|] eqn:Eb.
+  - destruct (region f (a_elem a) (a_sub a) 1) as [[i ws]|] eqn:Er; [|discriminate].
+    destruct ws as [|w [|? ?]]; try discriminate. inversion H; subst t'.
+    destruct (region_some _ _ _ _ _ _ Er) as (_ & Hws & _ & _ & _ & Hlen & _). change (Z.to_nat 1) with 1%nat in *.
+    apply put_file_ok; [exact Ht|]. apply K; [|cbn [length]; lia].
+    assert (Hw : word_ok w = true).
+    { assert (Hin : forallb word_ok [w] = true).
+      { rewrite Hws. unfold dfile_ok in Hok. apply andb_true_iff in Hok. destruct Hok as [Hok _].
+        apply andb_true_iff in Hok. destruct Hok as [Hok _]. apply andb_true_iff in Hok. destruct Hok as [H1 _].
+        clear - H1. revert H1. generalize (df_words f). intros l H1.
+        assert (S : forall n l, forallb word_ok l = true -> forallb word_ok (skipn n l) = true).
+        { induction n as [|n IH]; intros l0 H; [exact H|]. destruct l0 as [|x l0]; [reflexivity|].
+          cbn [forallb skipn] in *. apply andb_true_iff in H. destruct H as [Ha Hb]. apply IH. exact Hb. }
+        specialize (S i l H1). destruct (skipn i l) as [|x r]; [reflexivity|].
+        cbn [firstn forallb] in *. apply andb_true_iff in S. destruct S as [Sa _]. rewrite Sa. reflexivity. }
+      cbn [forallb] in Hin. apply andb_true_iff in Hin. tauto. }
+    unfold word_ok in Hw. cbn [forallb]. rewrite andb_true_r. unfold word_ok.
+    destruct (truthy v); [pose proof (setbit_range w b)|pose proof (clearbit_range w b)]; lia.
+  - set (new := if a_count a =? 1 then words_of (a_ft a) v
+                else match v with
+                     | VList vs => if Z.of_nat (length vs) =? a_count a then words_of_list (a_ft a) vs else None
+                     | _ => None
+                     end) in H.
+    destruct new as [ws|] eqn:En; [|discriminate].
+    destruct (region f (a_elem a) (a_sub a) (vwords (a_ft a) * a_count a)) as [[i old]|] eqn:Er; [|discriminate].
+    inversion H; subst t'.
+    destruct (region_some _ _ _ _ _ _ Er) as (_ & _ & _ & _ & Hpos & Hlen & _).
+    assert (Hk : length ws = Z.to_nat (vwords (a_ft a) * a_count a) /\ forallb word_ok ws = true).
+    { subst new. destruct (a_count a =? 1) eqn:Ec.
+      - pose proof (words_of_len _ _ _ En). assert (a_count a = 1) by lia. split; [lia|eapply words_of_ok; eassumption].
+      - destruct v; try discriminate. destruct (Z.of_nat (length vs) =? a_count a) eqn:El; [|discriminate].
+        pose proof (words_of_list_len _ _ _ En). assert (Z.of_nat (length vs) = a_count a) by lia.
+        split; [nia|eapply words_of_list_ok'; eassumption]. }
+    destruct Hk as [Hk Hwok].
+    apply put_file_ok; [exact Ht|]. apply K; [exact Hwok|lia].
+Qed.
